@@ -136,6 +136,7 @@ func c05Run(id int, strat string, progs [][]int, mk func(nthreads int) vsChooser
 	handled := 0
 	slowPath, lateDelivery, whileDraining, drainedEarly := false, false, false, false
 	slWriting := false
+	slParked := false // the send loop waits on notifyContinueWriteCh
 	conn.onWrite = func(typ int) {
 		if typ == int(typePolling) && !consIdle {
 			whileDraining = true
@@ -239,6 +240,7 @@ func c05Run(id int, strat string, progs [][]int, mk func(nthreads int) vsChooser
 			vsLog(vsKR, sendChCell, int64(typ), 0, 0)
 			for !vsCompareAndSwapUint32(&A.writing, 0, 1) {
 				got := false
+				slParked = true
 				for !got {
 					vsPre()
 					if stop {
@@ -247,6 +249,7 @@ func c05Run(id int, strat string, progs [][]int, mk func(nthreads int) vsChooser
 					select {
 					case <-A.notifyContinueWriteCh:
 						got = true
+						slParked = false
 						vsLog(vsKR, notifCell, 1, 0, 0)
 					default:
 						vsLog(vsKBusy, notifCell, 0, 0, 0)
@@ -286,6 +289,9 @@ func c05Run(id int, strat string, progs [][]int, mk func(nthreads int) vsChooser
 		}
 		if len(en) == 0 {
 			return -1 // quiescent
+		}
+		if len(en) == 1 && en[0] == sendT && slParked && *(*uint32)(unsafe.Pointer(&A.writing)) == 0 && len(A.notifyContinueWriteCh) == 0 {
+			return -1 // nobody is left to notify the send loop: it is parked for ever (judged below)
 		}
 		return inner(en, all, last, lastEv)
 	}
@@ -339,12 +345,27 @@ func c05Run(id int, strat string, progs [][]int, mk func(nthreads int) vsChooser
 	}
 	c.Quiescent = quiescent
 	c.FinalSize = rawSize()
+	parkedForever := false
+	if !quiescent && slParked && *(*uint32)(unsafe.Pointer(&A.writing)) == 0 && len(A.notifyContinueWriteCh) == 0 {
+		parkedForever = true
+		for i := 0; i < nprod; i++ {
+			if !threads[i].done {
+				parkedForever = false // somebody may still hand the connection over
+			}
+		}
+	}
 	stop = true
 	vsFinish(threads)
 	vs.active = false
 
 	// ---- property oracle (independent of the Coq model) ----
-	if !quiescent {
+	if parkedForever {
+		what := "another event"
+		if slHold == int(typePolling) {
+			what = "a polling event (a stranded wake-up)"
+		}
+		oracle["send loop parked for ever: it holds "+what+" taken from sendCh and waits on notifyContinueWriteCh although `writing` is free and no writer is left to notify it"] = true
+	} else if !quiescent {
 		oracle["run did not reach quiescence within the step bound"] = true
 	} else if c.FinalSize != 0 {
 		oracle["stranded at quiescence: all producers finished, every polling event delivered and handled, consumer idle, but recvQueue.size() != 0"] = true
@@ -395,7 +416,6 @@ func c05Run(id int, strat string, progs [][]int, mk func(nthreads int) vsChooser
 	if drainedEarly {
 		c.Feat = append(c.Feat, "queue-emptied-in-front-of-a-socket-item")
 	}
-	_ = sendT
 	return c
 }
 
